@@ -101,6 +101,8 @@ def fold(spec, state, x):
     new_state = (d, x)
     if spec[0] == 'fold':
         return new_state
+    if spec[0] == 'addcap':      # feedback template: a bounded running total that stays an entry-point-like int
+        return TOKEN_BASE + (weight(state) + weight(x) + 1) % spec[1]
     if spec[0] == 'fold_rs':     # returns_state=True: (state, result)
         return new_state, (d, 1, x)
     raise ValueError(spec)
